@@ -19,6 +19,8 @@ import (
 	"context"
 	"fmt"
 	"os"
+	"sort"
+	"strings"
 	"syscall"
 	"testing"
 	"time"
@@ -743,6 +745,19 @@ func TestVerifC07Limits(t *testing.T) {
 	defer os.RemoveAll(dir)
 	const rmax = 12
 	limits := vc07Limits(r.Thorough())
+	// execution order: cheapest families first (as in part small), so that a wall-budget cut on an overloaded machine takes the
+	// long position sweeps and the 500-1500-transaction scenarios last: 0 = a handful of transactions, fair run only (size sweep,
+	// creation faults); 1 = other fair-run-only scenarios; 2 = deviation sweeps over every position and page-sized DAGs
+	costClass := func(l vc07Limit) int {
+		switch {
+		case len(l.Kinds) > 0 || strings.HasPrefix(l.Name, "lower-height") || strings.HasPrefix(l.Name, "behind-by"):
+			return 2
+		case l.MaxMsg > 0 || l.KVStep:
+			return 0
+		}
+		return 1
+	}
+	sort.SliceStable(limits, func(a, b int) bool { return costClass(limits[a]) < costClass(limits[b]) })
 	outcome := func(o string) { r.Outcome(o) }
 	sig := func(l vc07Limit, clause string, devs []vc07Dev) string {
 		return vc07LargeSig(l.Class, clause, devs)[len("C07|large:"):]
